@@ -17,6 +17,7 @@ import Selene.Std.Access
 import Selene.Props.C01
 import Selene.Std.ProgLemmas
 import Selene.Scope.RefAt
+import Selene.Scope.MoreLints
 namespace Selene.Props.C07
 open Selene.Scope Selene.Std Selene.Lua
 
@@ -221,5 +222,24 @@ example :
     (Core.analyse bound).firstRefCoherent = true ∧ libraryLints lib [] bound = [] ∧
     (libraryLints lib [] free).map (·.message.1) = ["standard library global `math` does not contain the field `nope`"] := by
   decide
+
+/-! ## The two remaining lints that treat a name specially: `global_usage` (`_G`) and `unscoped_variables` -/
+
+/-- **C07 (`_G` re-bound).** For all scope tables: `global_usage` reports only references that are *unresolved* —
+a `_G` (or, under Roblox, `shared`) that the script binds itself is never reported. -/
+theorem C07_global_usage_gate (roblox : Bool) (ignore : Option (String → Bool)) (σ : St) (g : Diag)
+    (h : g ∈ globalUsage roblox ignore σ) :
+    ∃ r ∈ σ.refs.toList, isGlobalName r.name roblox = true ∧ r.resolved = none ∧ g.primary = ⟨r.ident, r.ident⟩ := by
+  obtain ⟨r, hr, h1, _, h3, h4⟩ := globalUsage_sound roblox ignore σ g h
+  exact ⟨r, hr, h1, h3, h4⟩
+
+/-- **C07 (`unscoped_variables` and the library).** For all scope tables: an `unscoped_variables` diagnostic is
+about a plain assignment to a name that nothing binds and that the library does not supply. -/
+theorem C07_unscoped_gate (ignore hasFields : String → Bool) (σ : St) (g : Diag)
+    (h : g ∈ unscopedVariables ignore hasFields σ) :
+    ∃ r ∈ σ.refs.toList, r.resolved = none ∧ r.write = some .assign ∧ hasFields r.name = false ∧
+      g.primary = ⟨r.ident, r.ident⟩ := by
+  obtain ⟨r, hr, h1, h2, _, h4, h5, _⟩ := unscoped_sound ignore hasFields σ g h
+  exact ⟨r, hr, h1, h2, h4, h5⟩
 
 end Selene.Props.C07
